@@ -156,7 +156,14 @@ def _configs(tier):
 
 
 def shards(tier):
-    return _configs(tier)
+    out = list(_configs(tier))
+    # life cycle: the simulator is first obtained on the empty system, then the block is added and it is obtained again
+    seen = set()
+    for c in _configs(tier):
+        if c['block'] not in seen and not c.get('corner'):
+            seen.add(c['block'])
+            out.append(dict(c, early=1))
+    return out
 
 
 def _inbits(d):
